@@ -448,6 +448,28 @@ func runC13(c *runCfg) error {
 			break
 		}
 	}
+	// payloads that look like something else: the textual end-of-data marker, line ends, the binary signature
+	// and trailer, protocol messages, a lone NUL. A payload is data whatever it spells, in both formats.
+	{
+		special := [][]byte{[]byte("\\.\n"), []byte("\\."), []byte("\\.\r\n"), []byte("\n"), []byte("\r\n"), {0}, {0xff, 0xff}, []byte("PGCOPY\n\377\r\n\000"),
+			mCopyDone(), mSync(), mCopyFail([]byte("x")), []byte("1\tfoo"), []byte("\\N"), []byte("\\.\n\\.\n")}
+		for si, sp := range special {
+			for _, f := range []int{0, 1} {
+				for _, ext := range []bool{false, true} {
+					cfg := mkCfg(2, f, 5, "last", true, complete)
+					var msgs [][]byte
+					if ext {
+						msgs = append(msgs, mParse(nil, []byte("copy"), 0), mBind(nil, nil, nil, nil, nil), mExecute(nil, 0))
+					} else {
+						msgs = append(msgs, mQuery([]byte("copy")))
+					}
+					msgs = append(msgs, mCopyData([]byte("1\tfoo")), mCopyData(sp), mCopyData([]byte("2\tbar\n")), mCopyData(special[(si+1)%len(special)]), mCopyDone(), mSync(), mQuery([]byte("select 1")))
+					emitSession(c, lockCase(id, "payloads", cfg, stdStartup, msgs))
+					id++
+				}
+			}
+		}
+	}
 	// zero columns: CopyIn must fail; stray copy messages outside copy mode
 	emitSession(c, lockCase(id, "nocols", mkCfg(0, 0, 1, "last", true, nil), stdStartup, [][]byte{mQuery([]byte("copy")), mCopyData([]byte("x")), mCopyDone(), mSync()}))
 	id++
